@@ -288,3 +288,28 @@ func worldHasNonUTF8Name(sc *Scenario) bool {
 	}
 	return false
 }
+
+func init() {
+	shapePredicates["F-C08-dotdot-path-parsed-as-range"] = func(sc *Scenario, class, detail string) bool {
+		// rev-parse answered with a range: "<id>\n^<id>"
+		if !strings.Contains(detail, `\n^`) {
+			return false
+		}
+		i := strings.Index(detail, "is described as ")
+		if i < 0 || !strings.Contains(detail[i:], "..") {
+			return false
+		}
+		for _, o := range sc.World.Objects {
+			if o.Kind != KTree {
+				continue
+			}
+			es, _ := DecodeTree(o.Body)
+			for _, e := range es {
+				if strings.Contains(e.Name, "..") {
+					return true
+				}
+			}
+		}
+		return false
+	}
+}
